@@ -259,6 +259,7 @@ func (r *vRun) jsonChecks(sg *vSignal, m *vMsg, v reflect.Value, pb []byte) {
 	req := v.Addr().Interface()
 	t0 := r.s.tree(m, v)
 	term := vCaseTerm(0, m.id, t0.String(), pb, len(pb))
+	vCur.term = term
 	var j []byte
 	var err error
 	if !vGuard(r.out, sg.name+" MarshalJSON", term, func() { j, err = sg.marshalJSON(req) }) {
